@@ -45,6 +45,12 @@ pub struct Program {
     /// the next ones are being handed to the members); the count must be back at zero when all is quiet
     #[serde(default)]
     pub back_to_back: bool,
+    /// cluster scenario: the acknowledgements of one secondary are held on the wire (its link towards the
+    /// primary delivers nothing for a while): every operation written meanwhile is still unacknowledged by that
+    /// node and must be reported as pending -- whatever the other secondary acknowledged -- and the count is
+    /// back at zero once the link delivers again
+    #[serde(default)]
+    pub hold_acks: bool,
 }
 
 const NODES: [&str; 3] = ["10.9.0.1:3014", "10.9.0.2:3014", "10.9.0.3:3014"];
@@ -81,13 +87,16 @@ fn gen_unit(rng: &mut Rng) -> Program {
             t.swap(i, i + 1);
         }
     }
-    Program { tasks, nodes: 0, writes: 0, rogue: vec![], back_to_back: false }
+    Program { tasks, nodes: 0, writes: 0, rogue: vec![], back_to_back: false, hold_acks: false }
 }
 
 fn gen_cluster(rng: &mut Rng) -> Program {
     let n = rng.range(0, 3) as usize;
     if rng.chance(1, 3) {
-        return Program { tasks: vec![], nodes: rng.range(2, 3) as usize, writes: rng.range(3, 14) as u32, rogue: vec![], back_to_back: true };
+        return Program { tasks: vec![], nodes: rng.range(2, 3) as usize, writes: rng.range(3, 14) as u32, rogue: vec![], back_to_back: true, hold_acks: false };
+    }
+    if rng.chance(1, 3) {
+        return Program { tasks: vec![], nodes: rng.range(2, 3) as usize, writes: rng.range(1, 5) as u32, rogue: vec![], back_to_back: false, hold_acks: true };
     }
     Program {
         tasks: vec![],
@@ -101,6 +110,7 @@ fn gen_cluster(rng: &mut Rng) -> Program {
             })
             .collect(),
         back_to_back: false,
+        hold_acks: false,
     }
 }
 
@@ -355,6 +365,60 @@ fn execute_cluster(prog: Program) -> Outcome {
     rogue.request(&format!("auth {} {}", USER, PWD), 2_000);
     with(|k| k.net.line_log = Some(Vec::new()));
     let mut ri = 0;
+    if prog.hold_acks {
+        let held = 1 + (prog.writes as usize % (prog.nodes - 1));
+        let (nh, n0) = (w.nodes[held].idx, w.nodes[0].idx);
+        with(|k| {
+            k.net.holds.push((nh, n0));
+            k.fault("acks_held");
+        });
+        for i in 0..prog.writes {
+            admin.exec(&format!("set h{} v{}", i, i));
+        }
+        // long enough for every copy to arrive and for the other secondary's acknowledgements to come back
+        sleep_ms(1_500);
+        let copies = with(|k| k.net.line_log.as_ref().map(|l| l.iter().filter(|r| r.to == Some(nh) && r.line.trim().starts_with("rp ") && r.line.contains(" replicate d h")).count()).unwrap_or(0));
+        let n = pending_count(&mut admin);
+        let dbg = d0.get_pending_messages_debug();
+        if copies as u32 == prog.writes && n != Some(prog.writes as u64) {
+            out.violations.push(Violation::new(
+                "unacked-not-pending",
+                format!("held-acks:{}nodes", prog.nodes),
+                format!("{} writes were sent to {} whose acknowledgements are still on the wire: pending_ops = {:?}, expected {}; {:?}", prog.writes, w.nodes[held].tcp, n, prog.writes, dbg),
+            ));
+            with(|k| k.net.holds.clear());
+            return out;
+        }
+        if copies as u32 == prog.writes {
+            // the held node's copy is the unacknowledged one (how many other acknowledgements the entry shows is not
+            // judged: an acknowledgement that arrives between the hand-overs to two members completes and drops the
+            // entry, and the second hand-over starts a new one -- the operation is pending either way)
+            for d in dbg.iter() {
+                if !(d.contains("ack_count: ") && d.contains(&w.nodes[held].tcp)) {
+                    // not the debug format this reading understands: nothing is concluded from it
+                    continue;
+                }
+                if !d.contains(&format!("{}:false", w.nodes[held].tcp)) {
+                    out.violations.push(Violation::new(
+                        "unacked-not-pending",
+                        format!("held-acks:{}nodes:detail", prog.nodes),
+                        format!("pending entry does not list {} as unacknowledged: {}", w.nodes[held].tcp, d),
+                    ));
+                    break;
+                }
+            }
+        }
+        with(|k| k.net.holds.clear());
+        if !w.settle(300, 8_000) {
+            out.violations.push(Violation::new("no-quiescence", "held-acks".to_string(), "cluster still talking 8 s after the held link delivered again".to_string()));
+            return out;
+        }
+        let n = pending_count(&mut admin);
+        if n != Some(0) {
+            out.violations.push(Violation::new("pending-not-zero", "held-acks".to_string(), format!("held acknowledgements delivered, everything quiet: pending_ops = {:?}; {:?}", n, d0.get_pending_messages_debug())));
+        }
+        return out;
+    }
     if prog.back_to_back {
         for i in 0..prog.writes {
             admin.exec(&format!("set k{} v{}", i % 3, i));
@@ -496,7 +560,7 @@ impl Property for C15 {
             rep.violations.push(Violation::new("panic", p.location.rsplit('/').next().unwrap_or("?").to_string(), format!("{} at {}", p.message, p.location)));
         }
         rep.violations.extend(out.violations);
-        rep.nontrivial = if unit { out.overlapped } else { !prog.rogue.is_empty() };
+        rep.nontrivial = if unit { out.overlapped } else { !prog.rogue.is_empty() || prog.hold_acks };
         rep.case_hash = kernel::mix(hash_str(&rep.program.to_string()), outcome.kernel.switch_hash);
         rep
     }
